@@ -108,6 +108,18 @@ def free_port():
 
 
 def _server_main(conf, logp, slugs_file, ready):
+    # own session / process group (so that the whole family - server, policy monitor, manager - can be removed at once) and
+    # no share in the check's standard streams (a process left behind must never keep the check's output pipe open)
+    try:
+        os.setsid()
+    except OSError:
+        pass
+    try:
+        fd = os.open(os.devnull, os.O_RDWR)
+        for k in (0, 1, 2):
+            os.dup2(fd, k)
+    except OSError:
+        pass
     install_wrap_socket()
     import logging
     from kmip.services.server import server as server_mod
@@ -208,10 +220,14 @@ class System(object):
                 socket.create_connection(("127.0.0.1", self.port), timeout=2).close()
             except OSError:
                 pass
-            self.proc.join(25)
-            if self.proc.is_alive():
-                self.proc.kill()
-                self.proc.join(5)
+            self.proc.join(15)
+        if self.proc is not None:
+            # whatever is left of the family (the server itself if it did not stop, its monitor and manager processes)
+            try:
+                os.killpg(self.proc.pid, signal.SIGKILL)
+            except (OSError, ProcessLookupError):
+                pass
+            self.proc.join(5)
         self.proc = None
 
     def client(self, cert, key, ver=None, username=None, password=None):
